@@ -74,16 +74,20 @@ static NS void g_relaxed_pop(long v, int completed_before, int inflight_during) 
   last_seq[p] = q + 1;
   popped_cnt++;
 }
+/* one item may carry a NULL payload (a legal value): it is recognised by being the only one */
+static int null_p = -1, null_q = -1;
+#define PAYLOAD(p, q, v) ((p) == null_p && (q) == null_q ? NULL : (void*)(v))
+#define VALUE_OF(data) ((data) == NULL && null_p >= 0 ? MKV(null_p, null_q) : (long)(data))
 static void do_push(int p, int q) {
   long v = MKV(p, q);
   int h = g_inv(p, OP_PUSH, v);
   if (kind == Q_MPSC) {
     mpsc_fifo_node_t* n = node_get(sizeof *n);
-    n->data = (void*)v;
+    n->data = PAYLOAD(p, q, v);
     mpsc_fifo_push(&mq, n);
   } else {
     spsc_node_t* n = node_get(sizeof *n);
-    n->data = (void*)v;
+    n->data = PAYLOAD(p, q, v);
     if (kind == Q_SPSC) spsc_fifo_push(&sq, n);
     else mpscr_fifo_push(rq, p, n);
   }
@@ -98,13 +102,13 @@ static long do_pop(int t) {
   if (kind == Q_MPSC) {
     mpsc_fifo_node_t* n = mpsc_fifo_trypop(&mq);
     if (n) {
-      v = (long)n->data;
+      v = VALUE_OF(n->data);
       node_put(n);
     }
   } else {
     spsc_node_t* n = kind == Q_SPSC ? spsc_fifo_trypop(&sq) : mpscr_fifo_trypop(rq);
     if (n) {
-      v = (long)n->data;
+      v = VALUE_OF(n->data);
       node_put(n);
     }
   }
@@ -138,8 +142,12 @@ void h_run(void) {
   cons_pops = wl_int(1, total + 2);
   yield_mask = wl_int(0, 7);
   recycle_on = wl_pct(60);
+  if (wl_pct(30)) {
+    null_p = wl_pick(nprod);
+    null_q = wl_pick(npush[null_p]);
+  }
   static const char* const kn[] = {"mpsc", "spsc", "mpsc-relaxed"};
-  sim_describe("%s producers=%d pushes=%d concurrent_pops=%d node_recycling=%d preempt=1/%d", kn[kind], nprod, total, cons_pops, recycle_on, c.preempt_inv);
+  sim_describe("%s producers=%d pushes=%d concurrent_pops=%d node_recycling=%d null_payload=%d/%d preempt=1/%d", kn[kind], nprod, total, cons_pops, recycle_on, null_p, null_q, c.preempt_inv);
   sim_nontrivial();
   hist_reset(M_FIFO, 0);
   mq_p = h_dirty_alloc(sizeof *mq_p);
